@@ -436,7 +436,32 @@ for _name, _n, _par in [("c11", 480, 8), ("c12", 400, 8), ("c13", 240, 8), ("c14
         outcome_key=client_key,
     )
 
+def noalloc_canon(ans):
+    return re.sub(r"(E:[^ ]*?):ctl:[01]", r"\1", re.sub(r"\?A\d+", "", ans))
+
+
+def noalloc_oracle(req, ans):
+    c = crash_oracle(req, ans)
+    if c:
+        return c
+    m = re.search(r"(\S*)!A(\d+)", ans)
+    if m:
+        idx = ans.split(" ").index(m.group(0)) if m.group(0) in ans.split(" ") else -1
+        ops = req.split(" ")[2:]
+        op = ops[idx] if 0 <= idx < len(ops) else "?"
+        return "allocation-free call `%s` touched the allocator %s time(s) (outcome %s)" % (op, m.group(2), m.group(1))
+    if "ok:ctl:0" in ans:
+        return "allocation meter is broken: reading a heap Name did not allocate"
+    return None
+
+
 STREAMS.update({
+    "noalloc": dict(
+        kinds=["noalloc", "noalloci"], quick=30000, thorough=800000,
+        canon=noalloc_canon, proj=lambda req, ans: noalloc_canon(ans), impl_oracle=noalloc_oracle,
+        nontrivial=lambda req, ans: len(ans.split(" ")) >= 3,
+        outcome_key=lambda req, ans: req.split(" ")[0] + ":" + ("E" if "E:" in ans else "ok") + (":ctl" if "ctl" in ans else ""),
+    ),
     "roundtrip": dict(
         kinds=["rt", "enc"], quick=30000, thorough=800000,
         canon=ident, proj=proj_kind, impl_oracle=roundtrip_oracle,
@@ -504,6 +529,35 @@ STREAMS.update({
         outcome_key=lambda req, ans: kind_of(ans),
     ),
 })
+
+def typecheck_special(ctx):
+    """C19: the compiler's verdict. `cargo check` of harness/typecheck against /repo's working tree."""
+    import os, shutil, time
+    d = os.path.join(ctx["ROOT"], "harness", "typecheck")
+    lock = os.path.join(d, "Cargo.lock")
+    if not os.path.exists(lock):
+        shutil.copy(os.path.join(ctx["REPO"], "Cargo.lock"), lock)
+    env = dict(ctx["env"])
+    env.pop("CARGO_TARGET_DIR", None)
+    t0 = time.time()
+    rc, out, err = ctx["run"](["cargo", "check", "--offline"], cwd=d, timeout=3600, env=env)
+    src = open(os.path.join(d, "src", "lib.rs")).read()
+    per_async = src.count("send(c.query_rrset") + 2 + 2 + 1   # typed + raw + constructor + object(2) + spawnable
+    n_assert = 3 * per_async + 3
+    res = dict(name="typecheck", evaluations=n_assert, distinct_nontrivial=n_assert, wall_s=round(time.time() - t0, 1),
+               samples=[dict(assertion="send(c.query_rrset::<Txt>(name, Class::IN)) for clients::{tokio,async_std,smol}::Client, name: &'a str"),
+                        dict(assertion="is_send::<Client>(); is_sync::<Client>() for all four clients"),
+                        dict(assertion="fn spawnable(c: Client, name: String) -> impl Future + Send + 'static")],
+               failures=[])
+    if rc != 0:
+        errs = [l for l in err.split("\n") if l.startswith("error")]
+        first = err[err.find("error"):][:3000] if "error" in err else err[-3000:]
+        res["failures"].append(dict(id="typecheck", link="impl-vs-spec",
+                                    request="cd harness/typecheck && cargo check --offline",
+                                    why="rustc rejects a Send/Sync assertion (or the crate no longer compiles): %s" % (errs[0] if errs else "?"),
+                                    rustc=first))
+    return res
+
 
 TRUSTED_BASE = [
     "Lean 4.33.0 kernel (thorough tier: leanchecker re-checks the .olean independently)",
@@ -656,6 +710,33 @@ PROPS = {
         level_note="`other`: sockets and the async runtimes are assumed; ID collisions between queries (2^-16) are outside the statements.",
         streams=[dict(name="c16")],
         explanation="C16: take_buf_sound, junk_blind, typed_is_raw, stale_ignored, accepted_has_current_id.",
+    ),
+    "C20": dict(
+        level="other", module="Rsdns.Props.C20",
+        technique="counting global allocator armed around every call of the allocation-free API on the real code + Lean-checked allocation-site accounting regenerated from the source",
+        level_text="Every call of the advertised allocation-free API (header, questions, InlineName record headers, markers, A/AAAA "
+                   "data, raw data, skips, seeks, counts, random access, NameRef labels/eq, MessageIterator with A/AAAA records) is "
+                   "executed with a counting allocator armed, on valid, mutated and random messages, error paths included; a heap "
+                   "`Name` read serves as positive control of the meter. The Lean side proves that no function reachable from these "
+                   "entry points (hand-written call graph) contains an allocating construct in the inventory the translator "
+                   "re-extracts from the Rust source on every run.",
+        level_note="`other`: allocation is a property of the compiled program; the theorem is about a syntactic inventory, the "
+                   "measurement is exact but sampled. Trusted: the call graph in Model/Alloc.lean, the construct list in tools/extract.py.",
+        streams=[dict(name="noalloc")],
+        explanation="C20: alloc_free_subset, errors_carry_no_heap_data, allocating_paths_are_seen; stream `noalloc` (+ `noalloci`).",
+    ),
+    "C19": dict(
+        level="other", module="Rsdns.Props.C19",
+        technique="exhaustive compiler check (cargo check of Send/Sync assertions over all four clients, all query methods, all 17 record types) tied to a Lean auto-trait model over struct shapes extracted from the source",
+        level_text="The decision is rustc's: harness/typecheck type-checks iff Client is Send+Sync for the four clients and the futures of "
+                   "Client::new, query_raw and query_rrset::<D> (17 D, non-'static borrows, plus a Send+'static spawnable block) are Send. "
+                   "The Lean side applies the structural Send/Sync rules to the field lists of ClientImpl / ClientCtx / Client that the "
+                   "translator extracts on every run; an unknown field type fails the theorem rather than defaulting.",
+        level_note="`other`: auto traits of compiler-generated async state machines are outside any model we can tie to this code; the "
+                   "Lean theorem is thin by design, the assurance is the compiler's and is exhaustive (a type-level fact, not sampled).",
+        streams=[], special=[typecheck_special],
+        explanation="C19: std_client_send_sync, async_client_send_sync, async_query_futures_send, ctx_send + cargo check of harness/typecheck.",
+        rule="the finite set of Send/Sync assertions in harness/typecheck/src/lib.rs is checked exhaustively by rustc; non-trivial = every assertion",
     ),
     "C10": dict(
         level="proof", module="Rsdns.Props.C10",
